@@ -725,6 +725,12 @@ type fnOnlyDataVisit struct {
 	// support that.
 	isNewTargetAllowed bool
 
+	// If true, we're directly inside a class field initializer that is going to
+	// be moved out of the class body by class field lowering. The value of
+	// "new.target" is always "undefined" in a field initializer, but it would
+	// become the constructor's "new.target" after the move, so we substitute it.
+	isNewTargetUndefined bool
+
 	// If false, the value for "this" is the top-level module scope "this" value.
 	// That means it's "undefined" for ECMAScript modules and "exports" for
 	// CommonJS modules. We track this information so that we can substitute the
@@ -12465,6 +12471,13 @@ func (p *parser) visitClass(nameScopeLoc logger.Loc, class *js_ast.Class, defaul
 				p.nameToKeepIsFor = property.InitializerOrNil.Data
 			}
 
+			// "new.target" is "undefined" in a field initializer, which must stay
+			// true after the initializer has been moved out of the class body
+			if property.Flags.Has(js_ast.PropertyIsStatic) {
+				p.fnOnlyDataVisit.isNewTargetUndefined = classLoweringInfo.lowerAllStaticFields
+			} else {
+				p.fnOnlyDataVisit.isNewTargetUndefined = classLoweringInfo.lowerAllInstanceFields
+			}
 			property.InitializerOrNil = p.visitExpr(property.InitializerOrNil)
 		}
 
@@ -13604,6 +13617,8 @@ func (p *parser) visitExprInOut(expr js_ast.Expr, in exprIn) (js_ast.Expr, exprO
 	case *js_ast.ENewTarget:
 		if !p.fnOnlyDataVisit.isNewTargetAllowed {
 			p.log.AddError(&p.tracker, e.Range, "Cannot use \"new.target\" here:")
+		} else if p.fnOnlyDataVisit.isNewTargetUndefined {
+			return js_ast.Expr{Loc: expr.Loc, Data: js_ast.EUndefinedShared}, exprOut{}
 		}
 
 	case *js_ast.EString:
